@@ -6,7 +6,9 @@ Gen/Pretty.lean (import-free):
   basePreserveWs        `TreeBuilder.DEFAULT_PRESERVE_WHITESPACE_TAGS` (XML flavour / builder-less default)
   defaultIndentInt      default of `Formatter.__init__(indent=…)` when it is an int (else 1 and `defaultIndentIsInt = false`)
   builtinIndents        (registry flavour, name, `.indent`) for every formatter in HTMLFormatter.REGISTRY / XMLFormatter.REGISTRY
-                        (name `None` is rendered as the empty name)"""
+                        (name `None` is rendered as the empty name)
+  defaultOutputEncoding, pythonSpecificEncodings   bs4.element constants consulted by decode/encode/BeautifulSoup.decode
+  stringAffixes         (class name, PREFIX, SUFFIX, is PreformattedString) for NavigableString and its subclasses"""
 import inspect
 import sys
 
@@ -50,6 +52,32 @@ def gen_pretty():
             doc.append(f"{flav}/{k}: {f.indent!r}")
     t += f"/-- `.indent` of every registered formatter — {', '.join(doc)} -/\n"
     t += f"def builtinIndents : List (List Nat × List Nat × List Nat) := [{', '.join(items)}]\n"
+    import bs4.element as EL
+    t += f"/-- `bs4.element.DEFAULT_OUTPUT_ENCODING` = {EL.DEFAULT_OUTPUT_ENCODING!r} (default of `eventual_encoding`/`encoding` in decode/encode) -/\n"
+    t += f"def defaultOutputEncoding : List Nat := {lean_str(EL.DEFAULT_OUTPUT_ENCODING)}\n"
+    import bs4 as B
+
+    def opt_str(v):
+        return "none" if v is None else f"(some {lean_str(v)})"
+    for nm, fn, par in (("tagDecodeDefaultEnc", EL.Tag.decode, "eventual_encoding"),
+                        ("tagDecodeContentsDefaultEnc", EL.Tag.decode_contents, "eventual_encoding"),
+                        ("tagEncodeDefaultEnc", EL.Tag.encode, "encoding"),
+                        ("tagEncodeContentsDefaultEnc", EL.Tag.encode_contents, "encoding"),
+                        ("soupDecodeDefaultEnc", B.BeautifulSoup.decode, "eventual_encoding"),
+                        ("tagPrettifyDefaultEnc", EL.Tag.prettify, "encoding")):
+        d = inspect.signature(fn).parameters[par].default
+        t += f"/-- default of `{par}` in `{fn.__qualname__}`: {d!r} -/\n"
+        t += f"def {nm} : Option (List Nat) := {opt_str(d)}\n"
+    pse = sorted(EL.PYTHON_SPECIFIC_ENCODINGS)
+    t += f"/-- `bs4.element.PYTHON_SPECIFIC_ENCODINGS` = {pse!r} -/\n"
+    t += f"def pythonSpecificEncodings : List (List Nat) := [{', '.join(lean_str(x) for x in pse)}]\n"
+    classes = [v for v in vars(EL).values() if isinstance(v, type) and issubclass(v, EL.NavigableString)
+               and v.__module__ == EL.__name__]
+    rows = [f"({lean_str(c.__name__)}, {lean_str(c.PREFIX)}, {lean_str(c.SUFFIX)}, "
+            f"{'true' if issubclass(c, EL.PreformattedString) else 'false'})" for c in classes]
+    t += ("/-- NavigableString and its subclasses defined in bs4.element: (class name, PREFIX, SUFFIX, is a PreformattedString) — "
+          + ", ".join(f"{c.__name__}: {c.PREFIX!r}..{c.SUFFIX!r}" for c in classes) + " -/\n")
+    t += f"def stringAffixes : List (List Nat × List Nat × List Nat × Bool) := [{', '.join(rows)}]\n"
     t += "end BS.Gen.Pretty\n"
     yield "Pretty.lean", t
 
